@@ -385,6 +385,7 @@ fn residue3() -> (usize, usize, usize) {
 
 fn apply_memo_knobs(call: &Call) {
     verif::set_version_frozen(call.freeze_version);
+    memo::set_suppress_flag_stale(call.suppress_flag_stale);
     CUR_KNOBS.with(|k| {
         let mut k = k.borrow_mut();
         if k.1 != call.flag_aware {
